@@ -191,11 +191,12 @@ func (rc *RunCtx) groupFamily(groups []Group, rebuild func(g Group) (Group, erro
 		extra = len(rejs) - maxConfirm
 		rejs = rejs[:maxConfirm]
 	}
-	if len(rejs) > 0 {
+	pending := rejs
+	for try := 0; try < confirmTries && len(pending) > 0; try++ {
 		// execute again and let TLC judge the new observations
-		again := make([]Group, 0, len(rejs))
+		again := make([]Group, 0, len(pending))
 		idx := map[int]int{}
-		for _, r := range rejs {
+		for _, r := range pending {
 			if _, ok := idx[r.id]; ok {
 				continue
 			}
@@ -214,7 +215,8 @@ func (rc *RunCtx) groupFamily(groups []Group, rebuild func(g Group) (Group, erro
 			again = append(again, g2)
 		}
 		v2 := rc.judgeGroups(again)
-		for _, r := range rejs {
+		var still []rej
+		for _, r := range pending {
 			k, ok := idx[r.id]
 			confirmed := false
 			if ok {
@@ -230,7 +232,7 @@ func (rc *RunCtx) groupFamily(groups []Group, rebuild func(g Group) (Group, erro
 			}
 			g := groups[r.id-1]
 			if !confirmed {
-				rc.infra("group %d rejected with %s but a second execution was not rejected: %s", r.id, r.cl, humanGroup(g))
+				still = append(still, r)
 				continue
 			}
 			sig := r.cl + " | " + humanGroup(g)
@@ -239,6 +241,10 @@ func (rc *RunCtx) groupFamily(groups []Group, rebuild func(g Group) (Group, erro
 			}
 			rc.Viol = append(rc.Viol, Violation{Clause: r.cl, Sig: sig, Human: humanGroup(g), Replay: g})
 		}
+		pending = still
+	}
+	for _, r := range pending {
+		rc.unreproduced("group %d rejected with %s: %s", r.id, r.cl, humanGroup(groups[r.id-1]))
 	}
 	if extra > 0 {
 		rc.Notes = append(rc.Notes, fmt.Sprintf("%d further rejections were not re-executed (cap %d)", extra, maxConfirm))
